@@ -238,3 +238,15 @@ def concrete_crosscheck(tier, kf):
             if not ok:
                 fails.append((fn, (s,)))
     return n, fails
+
+
+def regex_selftest():
+    import re
+    from bfg9000.backends.make.syntax import Writer
+    from bfg9000.shell import posix as pshell
+    rep = lambda m: m.group(1) * 2 + chr(92) + m.group(2)   # noqa: E731
+    return [('make target_ex', Writer._Writer__target_ex, rep, 'a~ #%:' + chr(92)),
+            ('make dep_ex', Writer._Writer__dep_ex, rep, 'a~|*[' + chr(92)),
+            ('make variable #', re.compile(r'(\\*)#'), lambda m: m.group(1) * 2 + chr(92) + '#',
+             'a#' + chr(92)),
+            ('posix _bad_chars', pshell._bad_chars, None, "a' -=")]
